@@ -95,6 +95,41 @@ def array_programs(seed, n, syms=gen.SYMS, tids=None):
     return progs
 
 
+def diag_programs(seed, n, syms=gen.SYMS, tids=None):
+    """multiply_diagonal with vectors that miss one or two charges of the axis (any position in the table,
+    blocks of equal size), through every entry point and axis form."""
+    tids = tids or gen.Tids()
+    progs = []
+    for i in range(n):
+        rng = gen.rng_for(seed, "diag", i)
+        sym = syms[i % len(syms)]
+        rank = rng.randint(1, 3)
+        dtype = rng.choice(["float64", "complex128"])
+        d = rng.randint(1, 2)
+        pool = gen.CHARGE_POOL[sym]
+        ixs = []
+        for k in range(rank):
+            cs = sorted(rng.sample(pool, min(len(pool), 3)))
+            ixs.append({"dual": rng.random() < 0.5, "cm": [{"c": list(c), "d": d} for c in cs]})
+        x = gen.rand_array(rng, sym, rank, "abelian", ixs=ixs, dtype=dtype, sparse=0.3)
+        steps = []
+        inputs = {"x": x}
+        for j in range(3):
+            ax = rng.randrange(rank)
+            cm = x["ix"][ax]["cm"]
+            keep = [e for e in cm]
+            for _ in range(rng.randint(1, 2)):
+                if len(keep) > 1:
+                    keep.pop(rng.randrange(len(keep)) if rng.random() < 0.5 else len(keep) - 1)
+            v = {"kind": "vector", "sym": sym, "blocks": [{"c": e["c"], "d": e["d"]} for e in keep], "dtype": dtype,
+                 "fill": {"start": 2 + j, "step": 1, "alt": True}}
+            inputs[f"v{j}"] = v
+            three(steps, "multiply_diagonal", ["x", f"v{j}"], {"axis": ax}, f"md{j}")
+            steps.append({"op": "multiply_diagonal", "in": ["x", f"v{j}"], "out": [f"mdi{j}"], "args": {"axis": ax, "inplace": False}})
+        progs.append({"tid": tids(), "inputs": inputs, "steps": steps})
+    return progs
+
+
 def vector_programs(seed, n, syms=gen.SYMS, tids=None):
     tids = tids or gen.Tids()
     progs = []
